@@ -1,8 +1,10 @@
 // Uncontrolled stress mode for EventQueue (C06, C11): shipped threading policies (std::mutex or SpinLock), real threads, built with
 // ThreadSanitizer.  Scenario syntax and trace vocabulary of cq_run.cpp (without wait / DisableQueueNotify: a real lost wake-up would hang);
 // records are written under one logger mutex, so their file order is a legal real-time order of the begin / end stamps.
-//   W_MUTEX 0 std::mutex | 1 SpinLock
+//   W_MUTEX 0 std::mutex | 1 SpinLock      W_HETER 1: HeterEventQueue with two prototypes (even / odd enqueue index), the inner callback
+//   lists use their own std::mutex; takeEvent / peekEvent / processUntil do not exist there
 #include <eventpp/eventqueue.h>
+#include <eventpp/hetereventqueue.h>
 #include <atomic>
 #include <cstdio>
 #include <cstdlib>
@@ -13,6 +15,9 @@
 #include <vector>
 #ifndef W_MUTEX
 #define W_MUTEX 0
+#endif
+#ifndef W_HETER
+#define W_HETER 0
 #endif
 static std::atomic<long> g_livePayload(0);
 struct Payload
@@ -33,7 +38,11 @@ struct Pol {
 	using Threading = eventpp::GeneralThreading<eventpp::SpinLock>;
 #endif
 };
+#if W_HETER == 1
+typedef eventpp::HeterEventQueue<int, eventpp::HeterTuple<void (const Payload &), void (const Payload &, int)>, Pol> Q;
+#else
 typedef eventpp::EventQueue<int, void (const Payload &), Pol> Q;
+#endif
 static FILE * g_out;
 static std::mutex g_logm;
 static Q * q;
@@ -43,7 +52,8 @@ static thread_local int t_self = 9;
 static void evt(const char * e, int t, int a, int b, int r) { LOG("{\"e\":\"%s\",\"t\":%d,\"a\":%d,\"b\":%d,\"r\":%d}\n", e, t, a, b, r); }
 static void jitter(unsigned & s) { s = s * 1103515245u + 12345u; if((s >> 16) % 4 == 0) std::this_thread::yield(); }
 static void listener(const Payload & p) { evt("en", t_self, p.uid, p.v, 0); std::this_thread::yield(); evt("rt", t_self, p.uid, 0, 0); }
-struct PredIf { bool operator() (const Payload & p) const { return (p.uid % 10) % 2 == 1; } };
+static void listener2(const Payload & p, int extra) { evt("en", t_self, p.uid, extra == p.uid + 1 ? p.v : -7, 0); std::this_thread::yield(); evt("rt", t_self, p.uid, 0, 0); }
+struct PredIf { bool operator() (const Payload & p) const { return (p.uid % 10) % 2 == 1; } bool operator() (const Payload & p, int) const { return (p.uid % 10) % 2 == 1; } };
 struct PredUntil { bool operator() (const Payload & p) const { return (p.uid % 10) >= 2; } };
 
 static bool parseScenario(const std::string & s)
@@ -62,6 +72,9 @@ static void execute(long execNo, unsigned seed)
 	const int n = (int)g_prog.size();
 	q = new Q();
 	q->appendListener(1, &listener);
+#if W_HETER == 1
+	q->appendListener(1, &listener2);
+#endif
 	std::atomic<int> ready(0);
 	std::vector<std::thread> threads;
 	for(int t = 0; t < n; ++t) {
@@ -73,19 +86,30 @@ static void execute(long execNo, unsigned seed)
 			for(const std::string & op : g_prog[t]) {
 				jitter(s);
 				const int idx = index++;
+#if W_HETER == 1
+				if(op == "nq") { int uid = (t + 1) * 10 + idx; evt("nqb", t, uid, uid, 0); if(idx % 2) { Payload p(uid, uid); q->enqueue(1, p, uid + 1); } else q->enqueue(1, Payload(uid, uid)); evt("nqe", t, uid, 0, 0); }
+#else
 				if(op == "nq") { int uid = (t + 1) * 10 + idx; evt("nqb", t, uid, uid, 0); if(idx % 2) { Payload p(uid, uid); q->enqueue(1, p); } else q->enqueue(1, Payload(uid, uid)); evt("nqe", t, uid, 0, 0); }
+#endif
 				else if(op == "pa" || op == "po" || op == "pi" || op == "pu") {
 					int mode = op == "pa" ? 1 : op == "po" ? 2 : op == "pi" ? 3 : 4;
 					evt("pb", t, mode, 0, 0);
+#if W_HETER == 1
+					if(mode == 4) { std::fprintf(stderr, "unknown op pu\n"); std::exit(2); }
+					bool r = mode == 1 ? q->process() : mode == 2 ? q->processOne() : q->processIf(PredIf());
+#else
 					bool r = mode == 1 ? q->process() : mode == 2 ? q->processOne() : mode == 3 ? q->processIf(PredIf()) : q->processUntil(PredUntil());
+#endif
 					evt("pe", t, mode, 0, r ? 1 : 0);
 				}
+#if W_HETER == 0
 				else if(op == "tk" || op == "pk") {
 					evt(op == "tk" ? "tkb" : "pkb", t, 0, 0, 0);
 					int uid = 0, v = 0; bool r;
 					{ Q::QueuedEvent qe; r = op == "tk" ? q->takeEvent(&qe) : q->peekEvent(&qe); if(r) { uid = std::get<0>(qe.arguments).uid; v = std::get<0>(qe.arguments).v; } }
 					evt(op == "tk" ? "tke" : "pke", t, uid, v, r ? 1 : 0);
 				}
+#endif
 				else if(op == "cl") { evt("clb", t, 0, 0, 0); q->clearEvents(); evt("cle", t, 0, 0, 0); }
 				else if(op == "eq") { evt("eqb", t, 0, 0, 0); bool r = q->emptyQueue(); evt("eqe", t, 0, 0, r ? 1 : 0); }
 				else { std::fprintf(stderr, "unknown op %s\n", op.c_str()); std::exit(2); }
